@@ -714,6 +714,10 @@ def contains(I: Interp, container: V, x: V) -> Any:
 
 # --------------------------------------------------------------------------- arithmetic
 def binop(I: Interp, op: ast.operator, a: V, b: V) -> V:
+    if isinstance(op, ast.BitOr) and isinstance(a, VConst) and isinstance(b, VConst) \
+            and isinstance(a.py, (type, types.UnionType)) \
+            and isinstance(b.py, (type, types.UnionType)):
+        return VConst(a.py | b.py)  # X | Y on classes: a union type (isinstance argument)
     if isinstance(op, ast.BitOr) and isinstance(a, VDict):
         # dict | mapping: right operand wins; an external mapping (os.environ) contributes
         # unknown keys, which never shadow what the code adds afterwards by item assignment
